@@ -120,6 +120,10 @@ def loop_shape(fn, ctx, L):
         a, b = f[1], f[2]
         other = b if a[:2] == var[:2] else (a if b[:2] == var[:2] else None)
         other = _unconv(other) if other is not None else None      # iterator -> const_iterator conversion around end()
+        if other is not None and not (other[0] == "mcall" and other[1].split("::")[-1] in ("end", "cend")) and _unconv(out["start"]) == ("lit", 0):
+            # counter loop written with != :  for (i = 0; i != B; ++i)  visits the same values as  i < B  (B is a size, never below 0)
+            out.update(kind="index", rel="<", bound=_unconv(other), ne_form=True)
+            return out
         if other is not None and other[0] == "mcall" and other[1].split("::")[-1] in ("end", "cend"):
             m = other[2]
             st = out["start"]
